@@ -63,7 +63,7 @@ def gen_knn_case(rng, tier, *, model=None, metrics=None, max_n=None, gclasses=No
     if allow_pre and rng.random() < 0.25:
         # pre-computed distances.  unsupervised: N x N matrix of a larger dataset, shuffled training subset, queries anywhere.
         # KNN-supervised demands an n_train x n_train matrix: training = a permutation of 0..n-1, validation/query indices inside it.
-        mk = gen.pick(rng, ["M1", "M2", "M3", "MB", "MN"])
+        mk = gen.pick(rng, ["M1", "M2", "M3", "MB", "MN", "MD"] if model == "unsup" else ["M1", "M2", "M3", "MB", "MN"])
         case.pop("int_features", None)
         case.pop("I_onthefly", None)
         if model == "knn":
@@ -137,6 +137,10 @@ def fit_model(case, m=None, before_final=None):
             m.max_k = int(case["max_k"])
         except Exception:  # noqa: BLE001
             pass
+        if case["model"] == "unsup" and case["max_k"] >= 3 and len(X) % 3 == 0 and not pre:
+            # an earlier, FAILING use of the same object with its final configuration: fewer samples than the configured k range
+            # (the library raises there); whatever it did to the object must not narrow the search of the fit that follows
+            safe_call(m.fit, X[:3].copy(), Y[:3].copy())
         if len(X) % 2 == 0:
             # same array objects, overwritten in place, handed to the final fit
             X0[:], Y0[:] = X, Y
@@ -160,6 +164,10 @@ def predict(case, m, Q, IQ=None):
 
     if case.get("pre"):
         return safe_call(m.predict, Q.copy(), np.array(IQ, dtype=int))
+    if case.get("I_onthefly"):
+        # identifiers (with repeats) handed over beside a feature metric: they identify nothing there
+        ids = np.array([case["I_onthefly"][i % len(case["I_onthefly"])] for i in range(len(Q))], dtype=int)
+        return safe_call(m.predict, Q.copy(), ids)
     return safe_call(m.predict, Q.copy())
 
 
